@@ -3,7 +3,7 @@
 # Runs ./check Cxx against an isolated copy of /repo (HEAD + patch) using an isolated copy of
 # /verif, so that neither /repo nor /verif's build state is disturbed.  Test bed under /tmp/mt.
 set -e
-PATCH=$1; PROP=$2; TIER=${3:-quick}
+PATCH=$1; [ "$PATCH" != "none" ] && PATCH=$(realpath "$PATCH"); PROP=$2; TIER=${3:-quick}
 MT=/tmp/mt
 mkdir -p $MT
 if [ ! -d $MT/repo/.git ] && [ ! -f $MT/repo/.git ]; then
